@@ -242,7 +242,7 @@ class ScoOperationsRegistry(AbstractScoOperationsRegistry):
             )
             return InvocationState.FAILED
 
-        return InvocationState.FINISHED
+        return execute_result.invocation_state
 
     def start_worker(self):
         """Start worker thread."""
